@@ -103,6 +103,7 @@ def run(ctx):
                     ctx.mismatch('matrix-basis', desc, got[:200], exp[:200])
         ctx.count('driver-lines', len(lines)); ctx.count('driver-mismatches', nb)
     expr_pass(ctx, np, sympy, expr_as_matrix)
+    boundary_pass(ctx, np, sympy, expr_as_matrix)
     ctx.assumptions = ['expr_as_matrix extracts coefficients with sympy collect/coeff and evaluates arrays through sympy.lambdify: trusted, only '
                        'their composition with kingdon is checked']
 
@@ -114,6 +115,55 @@ EXPRS = [
     ('R * x * ~R + x', lambda R, x: R * x * ~R + x), ('~x', lambda R, x: ~x), ('x.hodge()', lambda R, x: x.hodge()),
     ('(R * x) / 2', lambda R, x: (R * x) / 2), ('R * x / 4 + x', lambda R, x: R * x / 4 + x), ('0.5 * (R >> x)', lambda R, x: 0.5 * (R >> x)),
 ]
+
+
+def boundary_pass(ctx, np, sympy, expr_as_matrix):
+    """(a) d = 7 (above the dimension where sign table and blades become lazy): the matrices of basis blades multiply like the
+    blades - on pairs that do not commute - and the first column / frommatrix round trip holds; (b) `res_like` taken from another
+    Algebra object that compares equal to the operands' algebra (a second constructor call; the same algebra with another start
+    index, which renames the blades): the rows of A and the returned y belong to the binary keys of res_like"""
+    from kingdon import Algebra, MultiVector
+    rng = ctx.rng
+    for sig in ([1, 1, -1, 1, 0, 1, 1],) if ctx.quick else ([1] * 7, [1, 1, -1, 1, 0, 1, 1]):
+        alg = make_algebra(list(sig))
+        keys = list(alg.canon2bin.values())
+        S = alg.signs
+        pairs = [(1, 2), (2, 1), (3, 5), (1, 3), (64, 65), (7, 11)] + [(rng.choice(keys), rng.choice(keys)) for _ in range(4)]
+        for I, J in pairs:
+            bI = MultiVector.fromkeysvalues(alg, (I,), [1]); bJ = MultiVector.fromkeysvalues(alg, (J,), [1])
+            case = {'sig': list(sig), 'blades': [I, J]}
+            ctx.case(case, tag='matrix-d7')
+            prod = bI * bJ
+            lhs = np.asarray(prod.asmatrix()) if len(prod.keys()) else np.zeros((2 ** alg.d, 2 ** alg.d))
+            rhs = np.asarray(bI.asmatrix()) @ np.asarray(bJ.asmatrix())
+            if not np.array_equal(lhs, rhs):
+                ctx.violation('homomorphism', case, 'asmatrix(x*y) == asmatrix(x) @ asmatrix(y)', 'differs (sign %d)' % int(S[I, J]), key='matrix:homomorphism:d7')
+                break
+            back = {int(k): v for k, v in zip(MultiVector.frommatrix(alg, bI.asmatrix()).keys(), MultiVector.frommatrix(alg, bI.asmatrix()).values()) if v != 0}
+            if back != {I: 1}:
+                ctx.violation('frommatrix', case, {I: 1}, back, key='matrix:frommatrix:d7')
+                break
+    for sig, twin_kw in (([0, 1, 1, 1], {'start_index': 1}), ([1, 1, 1], {'start_index': 0}), ([1, 1, 1], {})):
+        alg = make_algebra(list(sig))
+        twin = make_algebra(list(sig), **twin_kw)
+        if not (alg == twin):
+            ctx.count('twin-not-equal')
+            continue
+        full = list(alg.canon2bin.values())
+        R = alg.multivector(name='R', keys=tuple(k for k in full if bin(k).count('1') % 2 == 0))
+        x = alg.multivector(name='x', keys=tuple(k for k in full if bin(k).count('1') == 1))
+        for name, f in EXPRS[:4]:
+            rl_keys = rng.sample(full, 2)
+            res_like = MultiVector.fromkeysvalues(twin, tuple(rl_keys), [1, 1])
+            case = {'sig': list(sig), 'expr': name, 'res_like_from': 'an equal Algebra object' + (f' with {twin_kw}' if twin_kw else ''), 'res_like': rl_keys}
+            ctx.case(case, tag='expr:res_like-twin')
+            try:
+                A, y = expr_as_matrix(f, R, x, res_like=res_like)
+                ok = check_Ax(alg, f, R, x, A, y, res_like, 'res_like', np, sympy)
+            except Exception as e:
+                ok = 'raises ' + repr(e)[:150]
+            if ok is not True:
+                ctx.violation('expr-as-matrix', case, 'rows for the keys of res_like', str(ok)[:250], key='expr:res_like-twin')
 
 
 def expr_pass(ctx, np, sympy, expr_as_matrix):
